@@ -186,13 +186,14 @@ Proof.
     { unfold padded, nlen in *. lia. }
     destruct (IH al (padded pos al + nlen (t_data t)) (padded s al + nlen (t_data t)) base Ha Ha64 Hbase Hinv' Hszr Hbound') as [IH1 IH2].
     split.
-    + cbn [combine map seek_tensors].
+    + cbn [combine map seek_tensors]. cbv zeta.
       change (ti_shape (tinfo_of (t, padded s al))) with (rev (t_shape t)). change (ti_kind (tinfo_of (t, padded s al))) with (t_kind t).
       rewrite go_pad_N by exact Ha.
       rewrite wrapZ64_small by (unfold padded in *; lia).
       destruct (Z.ltb_spec (Z.of_N pos + Z.of_N (padN pos al)) 0); [lia|].
       rewrite tensor_size_rev. fold (t_size t). unfold sized in Hszt. rewrite <- Hszt.
       rewrite to_int64_small by (unfold padded in *; lia).
+      destruct (Z.ltb_spec (Z.of_N (nlen (t_data t))) 0); [lia|].
       rewrite wrapZ64_small by (unfold padded in *; lia).
       destruct (Z.ltb_spec (Z.of_N pos + Z.of_N (padN pos al) + Z.of_N (nlen (t_data t))) 0); [lia|].
       replace (Z.of_N pos + Z.of_N (padN pos al) + Z.of_N (nlen (t_data t)))%Z with (Z.of_N (padded pos al + nlen (t_data t))) by (unfold padded; lia).
@@ -331,19 +332,22 @@ Proof.
   set (data := write_data (walign kv) (N.of_nat (length h)) ts) in *.
   destruct (oks_rd_header (eff_max ma0) kv ts data Hkv Hts (small_app_l _ _ Hsmall)) as [al Hh].
   fold h in Hh.
-  unfold decode. fold (eff_max ma0). rewrite Hh.
+  unfold decode, decode_from. fold (eff_max ma0). rewrite Hh.
   rewrite total_params_hdr. fold (expected_kv (eff_max ma0) kv ts).
   rewrite decoded_align by exact Hnd.
+  rewrite (N.mod_small (walign kv) two32) by (apply walign_lt; exact Hkv).
   destruct (Z.eqb_spec (Z.of_N (walign kv)) 0) as [E|_]; [lia|].
   rewrite app_length. replace (length h + length data - length data)%nat with (length h) by lia.
+  rewrite Z.add_0_l.
   unfold go_pad_p. destruct (Z.eqb_spec (Z.of_N (walign kv)) 0) as [E|_]; [lia|].
   rewrite <- nat_N_Z. fold (nlen h). rewrite go_pad_N by exact Hal.
   pose proof (walign_lt kv Hkv) as Hal32.
   assert (Hal64 : walign kv < two64) by (unfold two32, two64 in *; lia).
   pose proof (padN_lt (nlen h) (walign kv) Hal) as Hp.
   assert (Hh63 : nlen h < two63) by (apply small_app_l in Hsmall; exact Hsmall).
-  assert (Etoff : wrap64 (Z.to_N (Z.of_N (nlen h) + Z.of_N (padN (nlen h) (walign kv)))) = data_start kv ts).
-  { unfold data_start, padded. fold h. rewrite <- N2Z.inj_add, N2Z.id. apply wrap64_small. unfold two32, two63, two64 in *. lia. }
+  assert (Etoff : wrap64 (Z.to_N ((Z.of_N (nlen h) + Z.of_N (padN (nlen h) (walign kv))) mod Z.of_N two64)) = data_start kv ts).
+  { unfold data_start, padded. fold h. rewrite Z.mod_small by (unfold two32, two63, two64 in *; lia).
+    rewrite <- N2Z.inj_add, N2Z.id. apply wrap64_small. unfold two32, two63, two64 in *. lia. }
   rewrite Etoff.
   destruct (layout ts (walign kv) (nlen h) 0 (padded (nlen h) (walign kv)) Hal Hal64) as [Hseek _].
   - apply padN_aligned. exact Hal.
